@@ -23,6 +23,7 @@ import numpy as np
 
 import core
 import gridw
+import poke
 import oracle
 import wire
 from mgr import guarded
@@ -116,6 +117,7 @@ class ObsSession:
             w = gridw.RealWorld(d)
             ob = _CTORS[key](dict(grid=w.grid, agents=w.agents))
             w.finish()
+            poke.rejected(ob, [self.wdesc, list(key)])
             earlier = self.wdesc.get("earlier")
             if earlier is not None:
                 # a history: the same observer object has already observed, for every agent, an earlier
